@@ -61,6 +61,21 @@ func (p *printer) printFile(file *ast.File) error {
 		case *ast.GenDecl:
 			p.setComment(d.Doc)
 
+			if len(d.Specs) == 0 {
+				// an empty grouped declaration: keyword, colon, closing keyword
+				tok := token.Zh_全局
+				switch d.Tok {
+				case token.CONST, token.Zh_常量:
+					tok = token.Zh_常量
+				case token.TYPE, token.Zh_类型:
+					tok = token.Zh_类型
+				case token.IMPORT, token.Zh_引入:
+					tok = token.Zh_引入
+				}
+				p.print(d.Pos(), tok, token.COLON, d.Rparen, token.Zh_完毕)
+				break
+			}
+
 			switch s := d.Specs[0].(type) {
 			case *ast.ImportSpec:
 				assert(len(d.Specs) == 1)
